@@ -181,7 +181,14 @@ def histories(rep, rnd, tier):
                 fails.append('%s at step %d changed the structure of the context' % (what, step))
             if o1 != o2:
                 fails.append('%s at step %d: long-lived manager gives %s, a fresh one %s' % (what, step, str(o1)[:80], str(o2)[:80]))
-            b.add('history:' + what.split('(')[0], line, o1, parse_model_bits, fails,
+            def parse_hist(l, o=o1, rep=rep):
+                # descriptor edits can produce rules outside the model's domain (compute functions looking for their neighbours at
+                # negative indices: the model answers Unmodelled): there only the comparison with the fresh manager applies
+                if l == 'EXC Unmodelled':
+                    rep.hist['history:outside-model-domain'] = rep.hist.get('history:outside-model-domain', 0) + 1
+                    return o
+                return parse_model_bits(l)
+            b.add('history:' + what.split('(')[0], line, o1, parse_hist, fails,
                   dict(layer='history', stack=stack, step=step, what=what, rules=nrs), key=(h, step))
     b.run()
 
